@@ -2,6 +2,7 @@ import HavocVerif.Lemmas.Frame
 import HavocVerif.Model.TaskTable
 import HavocVerif.Model.Queue
 import HavocVerif.Gen.JobCodec
+import HavocVerif.Gen.SrcLines
 /-
   C02 — An operator's task reaches the agent exactly as issued.
 -/
@@ -197,5 +198,32 @@ theorem encoder_transcribed :
 
 example : tableEncodeLen (.str [104, 105]) = some 7 ∧ tableEncodeLen (.str [104, 0]) = some 6 ∧
     tableEncodeLen (.byte 3) = some 1 := by decide
+
+/-- regenerated from pkg/common/util.go and pkg/common/crypt/aes.go on every run: wide and narrow string parameters get
+    their terminator unless they end in one and are encoded by x/text's UTF-16LE encoder (surrogate pairs for characters
+    beyond the BMP: `encodeUTF16LE`) resp. taken as they are; `XCryptBytesAES256` makes a NEW CTR stream from the key and
+    the IV on every call (`xcrypt ks` restarts at offset 0 for every task body) and writes into a buffer of its own -/
+theorem string_and_crypt_transcribed :
+    Gen.SrcLines.encodeUTF16 =
+      ["EncodeUTF16(s string) []byte",
+       "var err error",
+       "if strings.HasSuffix(s, \"\\x00\") == false { s += \"\\x00\" }",
+       "uni := unicode.UTF16(unicode.LittleEndian, unicode.IgnoreBOM)",
+       "encoded, err := uni.NewEncoder().String(s)",
+       "if err != nil { logger.Error(\"Failed to convert UTF8 to UTF16\") return []byte(\"\") }",
+       "return []byte(encoded)"] ∧
+    Gen.SrcLines.encodeUTF8 =
+      ["EncodeUTF8(s string) []byte",
+       "if strings.HasSuffix(s, \"\\x00\") == false { s += \"\\x00\" }",
+       "return []byte(s)"] ∧
+    Gen.SrcLines.xcryptBytesAES256 =
+      ["XCryptBytesAES256(XBytes []byte, AESKey []byte, AESIv []byte) []byte",
+       "var ( ReverseXBytes = make([]byte, len(XBytes)) )",
+       "block, err := aes.NewCipher(AESKey)",
+       "if err != nil { logger.Error(\"Decryption Error: \" + err.Error()) return []byte{} }",
+       "stream := cipher.NewCTR(block, AESIv)",
+       "stream.XORKeyStream(ReverseXBytes, XBytes)",
+       "return ReverseXBytes"] :=
+  ⟨rfl, rfl, rfl⟩
 
 end Havoc.C02
